@@ -9,7 +9,7 @@ From Coq Require String.
 Import String.StringSyntax.
 From Pcfg Require Import ProbAlg F64 Expand ExpandProofs EndToEnd Next NextSpec NextProofs QProb QSum.
 From Pcfg Require Str Detect Counters SegCorr PipelineTrain.
-From Pcfg Require Import Pipeline PipelineSpec PipelineCorr PipelineDisk PipelineProofs PipelineF64 PipelineQ PipelineInst.
+From Pcfg Require Import Pipeline PipelineSpec PipelineCorr PipelineDisk PipelineProofs PipelineF64 PipelineQ PipelineCount PipelineCountQ PipelineInst.
 Import ListNotations.
 
 (* storing a word lower-cased with its U/L mask loses nothing on the property's
@@ -123,6 +123,20 @@ Theorem C03_sum_one_Q :
                  (emitted (run pop (l_rs L) (NextSpec.total (l_rs L)) (start (l_rs L))))) == 1)%Q.
 Proof. exact (PipelineQ.C03_sum_one_Q c_env c_env_ok). Qed.
 
+(* ... where that number IS the number of lines the guesser prints: every
+   pre-terminal of the session expands without error, and the probabilities of
+   all guesses (each guess carries the probability of its pre-terminal) sum to 1 *)
+Theorem C03_sum_one_guesses :
+  forall (o : options QProb) raw tr pw,
+  train c_env o raw = Some tr -> In pw raw -> accepted_pw c_env pw = true -> supported_pw c_env o raw pw = true ->
+  cov_ok o ->
+  exists L, pipeline_Q c_env o raw = Some L /\
+    forall pop, pop_ok_okb pop ->
+      (forall it, In it (session pop L) -> exists out, guesses_of RQ c_env L it = Some (out, length out)) /\
+      (Qsum (map (fun it : Qitem => iprob it * Qn (nguesses RQ c_env L it))
+                 (emitted (run pop (l_rs L) (NextSpec.total (l_rs L)) (start (l_rs L))))) == 1)%Q.
+Proof. exact (C03_sum_one_guesses_Q c_env c_env_ok). Qed.
+
 (* the generic statement both are instances of: any probability algebra with
    the trainer's operations, ideal disk; the two arithmetic facts it needs are
    explicit (no division by zero in the loader, the loaded ruleset is wf) *)
@@ -199,6 +213,7 @@ Close Scope string_scope.
 Print Assumptions C03_reproduced.
 Print Assumptions C03_reproduced_exact.
 Print Assumptions C03_sum_one_Q.
+Print Assumptions C03_sum_one_guesses.
 Print Assumptions C03_reproduced_generic.
 Print Assumptions C03_train_completes.
 Print Assumptions C03_mask_roundtrip.
